@@ -444,6 +444,26 @@ class History(object):
                            'ndecomp': 0}
         return ['load', op['lib'], op.get('how', 'name'), out.get('warn')]
 
+    def do_construct(self, op, idx):
+        """A library object made with the public constructor from a loaded
+        one (same scheme, copied contents, default arguments otherwise)."""
+        src = self.slots.get(op['from'])
+        if src is None or src['lineage'].get('merges') or \
+                src['lineage'].get('constructed') or src.get('baseline'):
+            return None
+        out, lib = libops.record(libops.construct_copy, src['lib'])
+        if lib is None:
+            self.viol('fresh-equivalence', 'construct-failed',
+                      'construct|obs=%s|ref=ok' % out.get('exc'),
+                      {'outcome': out}, idx)
+            return ['construct-failed', out.get('exc')]
+        lineage = {'base': list(src['lineage']['base']), 'merges': [],
+                   'constructed': True}
+        self.slots[op['slot']] = {'lib': lib, 'lineage': lineage,
+                                  'last_mol': None, 'ndecomp': 0}
+        self.probe('library_made_with_constructor')
+        return ['construct', lineage['base'][0]]
+
     def do_decompose(self, op, idx):
         s = self.slots.get(op['slot'])
         if s is None:
@@ -600,9 +620,12 @@ class History(object):
                       'rejected-merge-changed-the-uncertainty-block',
                       {'target': a['lineage']['base'][0],
                        'source': b['lineage']['base'][0]}, idx)
-        a['lineage'] = {'base': a['lineage']['base'],
-                        'merges': a['lineage']['merges']
-                        + [[_lin_copy(b['lineage']), op['overwrite']]]}
+        newlin = {'base': a['lineage']['base'],
+                  'merges': a['lineage']['merges']
+                  + [[_lin_copy(b['lineage']), op['overwrite']]]}
+        if a['lineage'].get('constructed'):
+            newlin['constructed'] = True
+        a['lineage'] = newlin
         a.pop('baseline', None)
         if 'exc' in out:
             self.after_failure = idx
@@ -630,8 +653,11 @@ class History(object):
 
 
 def _lin_copy(lin):
-    return {'base': list(lin['base']),
-            'merges': [[_lin_copy(o), ov] for o, ov in lin.get('merges', [])]}
+    out = {'base': list(lin['base']),
+           'merges': [[_lin_copy(o), ov] for o, ov in lin.get('merges', [])]}
+    if lin.get('constructed'):
+        out['constructed'] = True
+    return out
 
 
 def _trim(out):
@@ -741,7 +767,8 @@ def gen_spec(run_seed, tier='quick'):
          'evaluate': rng.uniform(1, 5), 'group_eval': rng.uniform(0, 1.5),
          'merge': rng.uniform(0.2, 1.6), 'load': rng.uniform(0.2, 1.0),
          'format': rng.uniform(0, 0.6), 'read_pattern': rng.uniform(0, 0.5),
-         'mapping_api': rng.uniform(0, 0.8)}
+         'mapping_api': rng.uniform(0, 0.8),
+         'construct': rng.uniform(0, 0.7)}
     env_ops = rng.random() < 0.3
     if env_ops and rng.random() < 0.4:
         # the override is wrong from the start and corrected later
@@ -804,7 +831,7 @@ def gen_spec(run_seed, tier='quick'):
                                              '/nonexistent/pgradd-data'])})
             continue
         kinds = ['decompose', 'load', 'group_eval', 'format', 'read_pattern',
-                 'mapping_api']
+                 'mapping_api', 'construct']
         lib = slots[c['slot']]
         mine = [d for d in descs if d[1] == lib]
         if mine:
@@ -867,6 +894,13 @@ def gen_spec(run_seed, tier='quick'):
                         'units': rng.choice(FORMAT_UNITS)})
         elif k == 'mapping_api':
             ops.append({'op': 'mapping_api', 'client': cid, 'slot': sid})
+        elif k == 'construct':
+            new_sid = len(slots)
+            ops.append({'op': 'construct', 'client': cid, 'slot': new_sid,
+                        'from': sid})
+            slots[new_sid] = lib
+            if rng.random() < 0.5:
+                c['slot'] = new_sid
         elif k == 'read_pattern':
             ops.append({'op': 'read_pattern', 'client': cid,
                         'text': rng.choice(PATTERNS)})
@@ -949,6 +983,36 @@ def fixed_histories():
         ops.append({'op': 'mapping_api', 'client': 0, 'slot': 0})
         out.append({'property': PROP, 'run_seed': 'fixed-%s-%s' % (a, b),
                     'config': {'clients': 2, 'libs': [a, b],
+                               'fault_kinds': []}, 'ops': ops})
+    # objects made with the public constructor (default arguments): a merge
+    # into one of them must not show in its siblings, nor in one made later
+    for src, uq in (('XieGA2022', 'GRWSurface2018'), ('FixA', 'PtSurface2023')):
+        mol = 'CCC'
+        ops = [{'op': 'load', 'client': 0, 'slot': 0, 'lib': uq, 'how': 'name'},
+               {'op': 'load', 'client': 0, 'slot': 1, 'lib': src,
+                'how': 'name'},
+               {'op': 'construct', 'client': 0, 'slot': 2, 'from': 1},
+               {'op': 'construct', 'client': 1, 'slot': 3, 'from': 1},
+               {'op': 'decompose', 'client': 1, 'slot': 3, 'mol': mol,
+                'out': 'd0'},
+               {'op': 'estimate', 'client': 1, 'slot': 3, 'from': 'd0',
+                'out': 'e0'},
+               {'op': 'evaluate', 'client': 1, 'est': 'e0',
+                'v': {'m': 'get_HoRT', 'T': 500.0}},
+               {'op': 'merge', 'client': 0, 'slot': 2, 'other': 0,
+                'overwrite': True},
+               {'op': 'mapping_api', 'client': 1, 'slot': 3},
+               {'op': 'estimate', 'client': 1, 'slot': 3, 'from': 'd0',
+                'out': 'e1'},
+               {'op': 'evaluate', 'client': 1, 'est': 'e1',
+                'v': {'m': 'get_HoRT', 'T': 500.0}},
+               {'op': 'construct', 'client': 0, 'slot': 4, 'from': 1},
+               {'op': 'estimate', 'client': 0, 'slot': 4, 'from': 'd0',
+                'out': 'e2'},
+               {'op': 'evaluate', 'client': 0, 'est': 'e2',
+                'v': {'m': 'get_SoR', 'T': 500.0}}]
+        out.append({'property': PROP, 'run_seed': 'fixed-ctor-%s' % src,
+                    'config': {'clients': 2, 'libs': [src, uq],
                                'fault_kinds': []}, 'ops': ops})
     return out
 
